@@ -38,3 +38,55 @@ def lemma_rhat_permutation():
     use_perm_between()
     use_perm_within()
     return 0
+
+
+def lemma_affine_lag(n, t):
+    """Q(k+1) = Q(k) + (x(k) - mu)(x(k+t) - mu), Q2(k+1) = Q2(k) + (a x(k) + b - (a mu + b))(a x(k+t) + b - (a mu + b)), k < n - t
+    =>   Q2(n - t) = a^2 Q(n - t)      (the lag-t autocovariance of a x + b is a^2 times that of x)"""
+    j = 0
+    while j < n - t:
+        inst(j)
+        j = j + 1
+    return j
+
+
+def lemma_ess_affine():
+    """chain means a mu_c + b, chain variances a^2 s2_c and lag-t autocovariances a^2 acov_c(t) (the three moment lemmas, per
+    chain) give B' = a^2 B, W' = a^2 W, var+' = a^2 var+, mean_c acov'_c(t) = a^2 mean_c acov_c(t) and therefore the same
+    rho_t, for every a != 0 and every lag t"""
+    use_affine_grand_mean()
+    use_affine_between()
+    use_affine_within()
+    use_affine_autocov()
+    return 0
+
+
+def lemma_ess_permutation():
+    """reordering the chains permutes the per-chain moments; B, W and mean_c acov_c(t) are sums over the chains of terms that
+    depend on the chain only through its own moments (and the grand mean), hence unchanged - and so is every rho_t"""
+    use_perm_grand_mean()
+    use_perm_between()
+    use_perm_within()
+    use_perm_autocov()
+    return 0
+
+
+def lemma_ess_same_rho(T):
+    """rho'_t = rho_t for every lag  =>  the running sums and the 'all non-negative so far' flags agree up to every T, the
+    exit lag is the same and ESS' = ESS"""
+    j = 1
+    while j < T:
+        inst(j)
+        j = j + 1
+    inst(j)
+    return j
+
+
+def lemma_ess_exit_unique(T1, T2):
+    """the exit lag of the ESS definition is unique: T1 < T2 cannot both be 'the first lag with a negative rho (or n)'"""
+    inst(T1)
+    j = T1 + 1
+    while j < T2:
+        inst(j)
+        j = j + 1
+    return j
